@@ -562,7 +562,7 @@ func init() {
 		},
 		Real:        append([]string{"martian readRequest deadlines, maybeHandshakeTLS, handleMITM handshake timeout, proxyproto header timeout, accept loop"}, realForwarder...),
 		Stub:        stubCommon,
-		Rule:        "listener stacking (plain, TLS, PROXY, PROXY+TLS, MITM) x per-run idle / read-header / TLS-handshake / PROXY-header / response-write limits x 0-16 peers stalled at drawn points (no byte, after k bytes of a PROXY header / TLS ClientHello / request head, between requests, after a MITM'd CONNECT's 200 with or without ClientHello bytes) or waiting on an origin slower than every limit; a well-behaved client connects meanwhile. All limits run on the fake clock. Oracle: closing time == phase start + applicable limit (never earlier; at most 200 ms later); slow origins never cause a close; the well-behaved client is answered with zero simulated time elapsed. Non-trivial = at least one stalled peer judged.",
+		Rule:        "listener stacking (plain, TLS, PROXY, PROXY+TLS, MITM) x per-run idle / read-header / TLS-handshake / PROXY-header / response-write limits x 0-16 peers stalled at drawn points (no byte, after k bytes of a PROXY header / TLS ClientHello / request head, between requests, after a MITM'd CONNECT's 200 with or without ClientHello bytes) or waiting on an origin slower than every limit; a well-behaved client connects meanwhile. All limits run on the fake clock. Oracle: closing time == phase start + applicable limit (never earlier; at most 200 ms later); slow origins never cause a close; the well-behaved client is answered with zero simulated time elapsed. Non-trivial = at least one stalled peer judged. Later additions: request body arriving three header limits after a complete head; slow PROXY header followed by slow ClientHello, each within its limit; pipelined partial head.",
 		Assumptions: []string{"after a MITM'd CONNECT's 200 and before the first ClientHello byte the statement does not say which limit applies: closure is required between min and max of idle-timeout and tls-handshake-timeout", "on a PROXY+TLS listener a peer stalled inside its PROXY header may be closed anywhere between min(header timeout, TLS handshake timeout) and the header timeout"},
 	})
 }
